@@ -75,3 +75,11 @@ prop("C20", ["contracts.c20_views"], ["EncodeBits", "DecodeBits", "GetBits", "Bi
               "encode_bits/decode_bits directly); raw and field values are universally quantified",
               "description tables are the enumerated family in contracts/c20_views.py (1..20 entries); the looked-up value is universally quantified"],
      not_decided=["the physical view (float division and round()): floats are opaque to the engine; covered only by the bounded stand-in"])
+
+prop("C15", ["contracts.c04_codec", "contracts.c05_pdovar", "contracts.c10_network", "contracts.c15_pdo", "contracts.c17_periodic"],
+     ["PdoOnMessage", "PdoAddCallback", "PdoTransmit", "PdoSubscribe", "PdoWaitForReception", "SubscribeBoundMethod",
+      "PdoMapGetItem", "PdoGet", "PdoSet", "Notify", "Subscribe", "PdoStartSetUpdate"],
+     assumed=["Network.send_message / subscribe as recorded by env/net.py; dispatch to subscribers is Network.notify (contracted in C10)",
+              "Condition.wait is a havoc point (A4); A5 callbacks do not re-enter"],
+     not_decided=["reception from a second thread while another thread waits (real interleavings)",
+                  "which of 0x1600+n / 0x1A00+n the PDO container files rx/tx maps under (fixed by the pinned test-suite, not by the statement)"])
